@@ -109,9 +109,13 @@ SameKey == {<<Field(k, "lower", r, <<"letter", "digit">>), Neutral("plain_a"), F
            \cup {<<Field(k, "lower", r, <<"letter", "digit">>), Neutral("plain_b"), Field(k, "lower", r, <<"digit", "digit">>),
                   Neutral("plain_a"), Field(k, "digits", r, <<"letter", "letter">>)>> :
                k \in {"token", "chapsecret"}, r \in Renderings \ DictStyle}
+\* the same key in two different renderings of one message (each occurrence is masked on its own:
+\* a rendering that matched must not stop another one from being looked for)
+SameKeyMixed == {<<Field(k, "lower", r1, <<"letter", "digit">>), Neutral("plain_a"), Field(k, "lower", r2, <<"digit", "letter">>)>> :
+                   k \in {"password", "auth_token"}, r1 \in Renderings \ DictStyle, r2 \in Renderings \ DictStyle}
 NoKey == {<<Neutral(a), Neutral(b)>> : a \in NeutralToks, b \in NeutralToks}
 
-Messages == Alone \cup Secrets \cup Glued \cup InContext \cup TwoFields \cup SameKey \cup NoKey
+Messages == Alone \cup Secrets \cup Glued \cup InContext \cup TwoFields \cup SameKey \cup SameKeyMixed \cup NoKey
 
 \* Known limitation of the pinned code (finding F5, see DESIGN.md): after a dict/JSON
 \* style field, any later quote character in the message makes the "wildcard"
